@@ -307,6 +307,17 @@ func (c *vhTextT) UnmarshalText(b []byte) error { return nil }
 type vhRecSlice []vhRecSlice
 type vhRecPtr *vhRecPtr
 type vhNamedString string
+
+// named slice / pointer types that reach a self-referential type from outside
+// its cycle, mutually recursive named slices, and named wrappers of ordinary types
+type vhRecList []vhRecSlice
+type vhRecListPtr *vhRecSlice
+type vhRecOuter []vhRecPing
+type vhRecPing []*vhRecPong
+type vhRecPong []vhRecPing
+type vhNamedSubs []*vhShapeSub
+type vhNamedSubPtr *vhShapeSub
+type vhNamedStrings []vhNamedString
 type vhSelfRef struct {
 	Next *vhSelfRef `@@?`
 	V    string     `@A`
@@ -327,6 +338,9 @@ var vhBuildFieldTypes = []reflect.Type{
 	reflect.TypeOf([]lexer.Token{}), reflect.TypeOf(1.5), reflect.TypeOf(uint8(0)), reflect.TypeOf([]int{}),
 	reflect.TypeOf(&vhSelfRef{}), reflect.TypeOf([][]string{}), reflect.TypeOf(&[]string{}),
 	reflect.TypeOf((*error)(nil)).Elem(), reflect.TypeOf(complex(1, 1)), reflect.TypeOf(uintptr(0)),
+	reflect.TypeOf(vhRecList{}), reflect.TypeOf(vhRecListPtr(nil)), reflect.TypeOf(vhRecOuter{}), reflect.TypeOf(vhRecPing{}),
+	reflect.TypeOf([]vhRecList{}), reflect.TypeOf(vhNamedSubs{}), reflect.TypeOf(vhNamedSubPtr(nil)), reflect.TypeOf(vhNamedStrings{}),
+	reflect.TypeOf([]*int{}), reflect.TypeOf([]*string{}),
 }
 
 var vhBuildTags = []string{`@@`, `@A`, `@@*`, `@A*`, `( @@ )?`, `@( A B )`, `"x" @@`, `@"x"`, `(?= @@ ) A`, `~@@`, `[ @@ ]`, `{ @@ }`}
